@@ -1765,9 +1765,16 @@ class Rule(metaclass=LogicalType):
                 return cls.post_validate(value, context)
 
             try:
-                value = context.transformer.apply(
-                    value, cls.__origin__, func=cls.__origin_transformer__
-                )
+                try:
+                    value = context.transformer.apply(
+                        value, cls.__origin__, func=cls.__origin_transformer__
+                    )
+                except TypeError:
+                    if not cls.__args_parser__ or not issubclass(cls.__origin__, (set, frozenset)):
+                        raise
+                    # a set cannot be made of the elements as they are given (one is not hashable), but they
+                    # are converted one by one below: there such an element is an invalid item like any other
+                    value = context.transformer.apply(value, list)
             except Exception as e:
                 error = exc.ParseError(origin_exc=e)
                 # if type cannot convert, the following args and constraints cannot validate
